@@ -349,28 +349,47 @@ class HNative:
         ins = tuple(g.placeholder('x%d' % i) for i in range(n_inputs))
         return g.call_function(fn, (ins,) + tuple(extra_args), dict(kwargs or {}))
 
-    def fx_graph(self, spec):
+    def fx_graph(self, spec, modules=None, list_args=()):
         import torch.fx as fx
         torch = self.torch
         root = torch.nn.Module()
         g = fx.Graph()
         nodes = {}
+        modules = modules or {}
+
+        def put(path, m):
+            cur = root
+            parts = path.split('.')
+            for p_ in parts[:-1]:
+                if not hasattr(cur, p_):
+                    cur.add_module(p_, torch.nn.Module())
+                cur = getattr(cur, p_)
+            cur.add_module(parts[-1], m)
         for name, op, inputs, meta in spec:
             ins = tuple(nodes[i] for i in inputs)
+            args = (list(ins),) if name in list_args else ins
             if op == 'placeholder':
                 n = g.placeholder(name)
             elif op == 'output':
                 n = g.output(ins[0] if len(ins) == 1 else ins)
             elif op == 'call_module':
                 target = name.split('@')[0]
-                if not hasattr(root, target):
-                    root.add_module(target, torch.nn.Identity())
-                n = g.call_module(target, ins)
+                try:
+                    root.get_submodule(target)
+                except AttributeError:
+                    put(target, modules[target] if target in modules else torch.nn.Identity())
+                n = g.call_module(target, args)
             else:
                 n = g.call_function(torch.add if len(ins) == 2 else torch.relu, ins)
             n.meta.update(meta)
             nodes[name] = n
         return fx.GraphModule(root, g), nodes
+
+    def fx_module_names(self, gm):
+        names = set()
+        for n in gm.graph.nodes:
+            pass
+        return sorted(name for name, m in gm.named_modules() if name and type(m) is not self.torch.nn.Module)
 
     def fx_run(self, gm, x):
         gm.graph.lint()
